@@ -103,20 +103,14 @@ def takeLoop : List Pat → Option (Pred × Nat) × List Pat
   | .quant _ lo none (.chr P) :: rest => (some (P, lo), rest)
   | items => (none, items)
 
-/-- `extractRequiredLandmarkAlternative`: `[whitespace loop] core [whitespace loop]` and nothing else.  A set
-    core followed by REQUIRED whitespace is refused: the finder tests the whitespace at the greedy end of the
-    set run only, which a match need not use (defect reported for /repo 5854864). -/
+/-- `extractRequiredLandmarkAlternative`: `[whitespace loop] core [whitespace loop]` and nothing else -/
 def altOf (p : Pat) : Option SymAlt :=
   let r1 := takeLoop (leaves 64 p)
   match coreOf r1.2 with
   | none => none
   | some (core, items2) =>
     let r2 := takeLoop items2
-    if !r2.2.isEmpty then none
-    else
-      match core, r2.1 with
-      | .set _ _ _, some (_, lo) => if 0 < lo then none else some ⟨r1.1, core, r2.1⟩
-      | _, _ => some ⟨r1.1, core, r2.1⟩
+    if !r2.2.isEmpty then none else some ⟨r1.1, core, r2.1⟩
 
 def allAlts : List Pat → Option (List SymAlt)
   | [] => some []
